@@ -258,7 +258,7 @@ def main():
                             items.append(("pre", variant, False, n, sp1, sp2, True, mt))
                         if len(sp1) <= len(sp2) and mt == (nh, np_) and n <= 2:
                             items.append(("transpose", variant, False, n, sp1, sp2, True, mt))
-                        if not quick and n <= 2 and mt == (nh, np_):
+                        if not quick and (n <= 2 or big <= 4) and mt == (nh, np_):
                             items.append(("isr", variant, True, n, sp1, sp2, True, mt))
     # SecularMatrix.mvp (sums blocks): (kind, variant, singles, order, space, adc_order, subtract_gs, model)
     for variant, (lo, hi) in SP2.items():
